@@ -608,6 +608,87 @@ fn check_streams(set: &MacroSet, extra_preamble: &str, streams: &[Vec<Tok>], wit
     }
 }
 
+// ------------------------------------------------------------------------------------------------
+// coverage-guided stage
+// ------------------------------------------------------------------------------------------------
+
+/// Entry point of the libFuzzer target `c07_expandafter_source` (harness/vfuzz): byte 0 selects one of the three fixed
+/// macro sets, the rest is TeX source run - as up to four lines - on a VM with the optimised `\expandafter` and on a VM
+/// with the simple one. Output, error and the recorded macro expansions must be identical (the differential half of
+/// `check_streams`; the reference expander needs token-structured input and stays with the generated phases).
+pub fn fuzz_one(data: &[u8], obs: &mut Obs) {
+    let Some((sel, rest)) = data.split_first() else {
+        return;
+    };
+    let Ok(text) = std::str::from_utf8(rest) else {
+        return;
+    };
+    let set = xa::fixed_macro_set((*sel % 3) as u64);
+    let Ok(preamble) = set.preamble() else {
+        return;
+    };
+    let srcs: Vec<String> = text.split('\n').take(4).map(|l| l.to_string()).collect();
+    let simple = run_streams(true, &preamble, &srcs);
+    let optimized = run_streams(false, &preamble, &srcs);
+    match (simple, optimized) {
+        (Ok(a), Ok(b)) => {
+            obs.count("xa:fuzz-cases");
+            if a != b {
+                let i = a.iter().zip(b.iter()).position(|(x, y)| x != y).unwrap_or(a.len().min(b.len()));
+                let what = match (a.get(i), b.get(i)) {
+                    (Some(x), Some(y)) if x.error != y.error => "error",
+                    (Some(x), Some(y)) if x.out != y.out => "output",
+                    (Some(_), Some(_)) => "macro-expansion-events",
+                    _ => "length",
+                };
+                obs.violation(
+                    format!("C07:expandafter-implementations-differ:{what}"),
+                    json!({"preamble": preamble, "streams": srcs, "simple": format!("{:?}", a.get(i)), "optimized": format!("{:?}", b.get(i))}),
+                );
+            }
+        }
+        (Err(a), Err(b)) => {
+            if a.signature() != b.signature() {
+                obs.repo_panic(&a, json!({"preamble": preamble, "streams": srcs, "other_panic": b.signature()}));
+            }
+        }
+        (Err(p), Ok(_)) | (Ok(_), Err(p)) => {
+            if !p.budget {
+                obs.violation(
+                    "C07:expandafter-implementations-differ:panic",
+                    json!({"preamble": preamble, "streams": srcs, "panic": p.signature()}),
+                );
+            }
+        }
+    }
+}
+
+/// Seed corpus (generated streams of all flavours over the three fixed macro sets) and dictionary.
+pub fn fuzz_seeds() -> vcore::fuzzglue::Seeds {
+    let mut inputs = vec![];
+    for k in 0..600u64 {
+        let mut rng = Rng::new(0xC07 + k);
+        let set = xa::fixed_macro_set(k % 3);
+        let mut st = StreamStats::default();
+        let flavor = if k % 2 == 0 { Flavor::MacroOnly } else { Flavor::Mixed };
+        let s = xa::random_stream(&mut rng, &set, flavor, &mut st);
+        if let Some(src) = to_source(&s) {
+            let mut v = vec![(k % 3) as u8];
+            v.extend_from_slice(src.as_bytes());
+            inputs.push(v);
+        }
+    }
+    let dictionary = [
+        "\\expandafter", "\\noexpand", "\\xb", "\\nx", "\\a", "\\b", "\\c", "\\d", "\\z", "\\notes", "\\end", "\\relax", "\\def", "\\let",
+        "\\csname", "\\endcsname", "\\the", "\\number", "\\string", "\\iftrue", "\\iffalse", "\\else", "\\fi", "\\ifx", "\\ifnum", "{", "}", "#1", "%",
+        "\\count1", "\\romannumeral", "\\uppercase", "\\edef",
+    ]
+    .iter()
+    .map(|s| s.to_string())
+    .collect();
+    vcore::fuzzglue::Seeds { inputs, dictionary }
+}
+
 fn stream_stats(st: &StreamStats, obs: &mut Obs) {
     obs.add("xa:expandafter-tokens-generated", st.xa_tokens);
     obs.add("xa:expandafter-alias-tokens-generated", st.xa_aliases);
